@@ -27,6 +27,12 @@ Proof. exact own_proj_async. Qed.
 Print Assumptions C19_erase_async.
 
 (* a decode that succeeds leaks nothing (the value owns everything that was built) *)
+(* NOTE (scope of the next statement and of C19_no_leak_async): both hold BY CONSTRUCTION of the model -- the only clause of Own.v
+   that adds to the ghost list is the element loop of the SYNC list arm, taken on a failure (obind_leak with a non-empty [extra]);
+   a successful run and every async run never reach it.  They say that the MODEL has no other leak clause, not that the emitted
+   code has no other leak: that part is the inventory (C19_inventory, C19_template_inventory below: every unsafe block / raw-pointer
+   operation of the emitted text, as a regenerated list) plus Rust's drop semantics for safe code (trusted), plus the measurement
+   (pv/props/c19.py: live bytes after every failed decode, compared with the model's prediction in both directions). *)
 Theorem C19_ok_no_leak : forall md A S p f t s x,
   fst (own_decode md A S p f t s) = Ok x -> snd (own_decode md A S p f t s) = [].
 Proof. exact own_ok_no_leak. Qed.
@@ -166,3 +172,19 @@ Theorem C19_message_erase_async : forall A S kb p fuel t s,
   (let* (id, s1) := a_message_begin p s in let* (v, s2) := gen_decode_async S p fuel t s1 in Ok (id, v, s2)).
 Proof. exact message_erase_async. Qed.
 Print Assumptions C19_message_erase_async.
+
+(* ---------------------------------------------------------------------------------------------------------------
+   Inventory of the emitted text, as LISTS (the five counters of C19_inventory cover ty.rs only): every `unsafe`, set_len, as_mut_ptr,
+   as_ptr, pointer offset / write, from_raw_parts, get_bytes, mem::forget, ManuallyDrop, Box::leak, transmute in the string literals of
+   pilota-build/src/codegen/thrift/*.rs (ty.rs, mod.rs -- the retention templates --, decode_helper.rs) and in the `fn get_bytes` bodies
+   of the runtime readers those templates hand a raw pointer to, as (file, generator function, kind, line text), regenerated on every
+   run (tools/gen_template_inventory.py -> Generated/TemplateSites.v).  TemplateAcc.accounted_own_sites gives each a disposition from a
+   closed enumeration; the only sites that can lose a value are the ones of ty.rs (OListArm = Own.own_elems with raw = true). *)
+From Coq Require Import String Bool.
+From PVGen Require Import Generated.TemplateSites TemplateAcc Proofs.TemplateAccP.
+Theorem C19_template_inventory :
+  map fst accounted_own_sites = template_own_sites /\
+  forallb (fun sr => if String.eqb (file_of (fst sr)) "ty.rs" then odisp_eqb (snd sr) OListArm else negb (odisp_eqb (snd sr) OListArm))
+          accounted_own_sites = true.
+Proof. exact template_own_inventory. Qed.
+Print Assumptions C19_template_inventory.
